@@ -50,7 +50,7 @@ func c54(c *Ctx) {
 	var reqSeqs, helloSeqs []string
 	var reqWrite ssa.Instruction
 	for _, w := range writes {
-		seqs := AppendSeqs(w.(*ssa.Call).Call.Args[0])
+		seqs := AppendSeqs(BaselineArgs(&w.(*ssa.Call).Call)[0])
 		if strings.Contains(strings.Join(seqs, "\n"), "$r.cmd") {
 			reqSeqs, reqWrite = seqs, w
 		} else {
@@ -121,7 +121,7 @@ func c54(c *Ctx) {
 	c.Count(connect, success, 1, 1)
 	readN := func(n int64) Sel {
 		return Calls("io.ReadFull").Where(fmt.Sprintf("into b[:%d]", n), func(in ssa.Instruction) bool {
-			sl, ok := in.(*ssa.Call).Call.Args[1].(*ssa.Slice)
+			sl, ok := BaselineArgs(&in.(*ssa.Call).Call)[1].(*ssa.Slice)
 			if !ok || sl.High == nil {
 				return false
 			}
@@ -282,14 +282,14 @@ func c54(c *Ctx) {
 	// reply length per address type: l = 2 + {4, 16, first byte of the length read}
 	var finalRead *ssa.Call
 	for _, in := range Calls("io.ReadFull").F(c.P, fn) {
-		if _, isSlice := in.(*ssa.Call).Call.Args[1].(*ssa.Slice); !isSlice {
+		if _, isSlice := BaselineArgs(&in.(*ssa.Call).Call)[1].(*ssa.Slice); !isSlice {
 			finalRead = in.(*ssa.Call)
 		}
 	}
 	got := map[string]string{}
 	if finalRead != nil {
 		var lphi *ssa.Phi
-		Backward(finalRead.Call.Args[1], func(v ssa.Value) bool {
+		Backward(BaselineArgs(&finalRead.Call)[1], func(v ssa.Value) bool {
 			if sl, ok := v.(*ssa.Slice); ok && sl.High != nil {
 				if ph, ok := sl.High.(*ssa.Phi); ok && lphi == nil {
 					lphi = ph
@@ -379,7 +379,7 @@ func c54(c *Ctx) {
 	}
 	c.Check(portOK, "codec-layout", connect+": bound port = b[len(b)-2]<<8 | b[len(b)-1]", fn.Pos(), "", why)
 	c.Has(connect, Calls("builtin:copy").Where("into Addr.IP", func(in ssa.Instruction) bool {
-		return strings.HasSuffix(Term(in.(*ssa.Call).Call.Args[0]), ".IP")
+		return strings.HasSuffix(Term(BaselineArgs(&in.(*ssa.Call).Call)[0]), ".IP")
 	}))
 	c.Has(connect, Stores("internal/socks.Addr.Name").Where("from b[:len(b)-2]", func(in ssa.Instruction) bool {
 		sl, ok := StripConv(in.(*ssa.Store).Val).(*ssa.Slice)
@@ -432,7 +432,7 @@ func c54(c *Ctx) {
 		guarded := false
 		isCap := func(v ssa.Value) bool {
 			cl, ok := StripConv(v).(*ssa.Call)
-			return ok && CalleeName(&cl.Call) == "builtin:cap" && cl.Call.Args[0] == sl.X
+			return ok && CalleeName(&cl.Call) == "builtin:cap" && BaselineArgs(&cl.Call)[0] == sl.X
 		}
 		for d := sl.Block().Idom(); d != nil; d = d.Idom() {
 			ifi, ok := d.Instrs[len(d.Instrs)-1].(*ssa.If)
@@ -501,7 +501,7 @@ func lenMinus(idx, buf ssa.Value) (int64, bool) {
 	// idx == len(buf) + k, by SSA identity of buf (robust to hoisting len(b)-2 into a local and to b[off+1])
 	switch x := StripConv(idx).(type) {
 	case *ssa.Call:
-		if CalleeName(&x.Call) == "builtin:len" && x.Call.Args[0] == buf {
+		if CalleeName(&x.Call) == "builtin:len" && BaselineArgs(&x.Call)[0] == buf {
 			return 0, true
 		}
 	case *ssa.BinOp:
